@@ -211,6 +211,33 @@ Proof.
   - apply A. rewrite E. apply eq_feq. ring.
   - apply B. intros Z0. apply E. transitivity (ew x - ew y + ew y); [apply eq_feq; ring|]. rewrite Z0. apply eq_feq. ring.
 Qed.
+Theorem gt_forced x y r s' cs vx vy : run (gt c x y) s = (inl r, s', cs) -> sat cs ->
+  2 ^ (Z.of_nat (nbits c) + 1) <= p -> ew x == vx -> ew y == vy -> - 2 ^ Z.of_nat (nbits c) <= vx - vy - 1 < 2 ^ Z.of_nat (nbits c) ->
+  ew r == (if vy <? vx then 1 else 0).
+Proof.
+  intros R H Hk Ex Ey Rg. unfold gt in R. pose proof (check_positive_forced _ _ _ _ _ R H) as K.
+  assert (Dv : ew (subc (sub x y) 1) == vx - vy - 1) by (rewrite ew_subc, ew_sub, Ex, Ey; reflexivity).
+  pose proof (sign_of _ _ _ (vx - vy - 1) Hk Rg Dv K) as K'.
+  replace (if vy <? vx then 1 else 0) with (if 0 <=? vx - vy - 1 then 1 else 0); [exact K'|].
+  destruct (Z.leb_spec 0 (vx - vy - 1)), (Z.ltb_spec vy vx); try reflexivity; lia.
+Qed.
+Theorem ge_forced x y r s' cs vx vy : run (ge c x y) s = (inl r, s', cs) -> sat cs ->
+  2 ^ (Z.of_nat (nbits c) + 1) <= p -> ew x == vx -> ew y == vy -> - 2 ^ Z.of_nat (nbits c) <= vx - vy < 2 ^ Z.of_nat (nbits c) ->
+  ew r == (if vy <=? vx then 1 else 0).
+Proof.
+  intros R H Hk Ex Ey Rg. unfold ge in R. pose proof (check_positive_forced _ _ _ _ _ R H) as K.
+  assert (Dv : ew (sub x y) == vx - vy) by (rewrite ew_sub, Ex, Ey; reflexivity).
+  pose proof (sign_of _ _ _ (vx - vy) Hk Rg Dv K) as K'.
+  replace (if vy <=? vx then 1 else 0) with (if 0 <=? vx - vy then 1 else 0); [exact K'|].
+  destruct (Z.leb_spec 0 (vx - vy)), (Z.leb_spec vy vx); try reflexivity; lia.
+Qed.
+(* boolean connectives on bit wires: forced, and boolean again *)
+Theorem bit_and_forced a b r s' cs : run (bit_and a b) s = (inl r, s', cs) -> sat cs -> isbit (ew a) -> isbit (ew b) -> ew r == ew a * ew b /\ isbit (ew r).
+Proof.
+  intros R H Ha Hb. unfold bit_and in R. pose proof (mul_forced _ _ _ _ _ R H) as E. split; [rewrite E; apply eq_feq; ring|].
+  apply (and_sound p Hp (ew a) (ew b)); try assumption. rewrite E. apply eq_feq. ring.
+Qed.
+
 (* C16 / C03: the width argument of a decomposition / non-negativity assertion is the width enforced *)
 Theorem to_bits_forced x k bs s' cs : run (to_bits x k) s = (inl bs, s', cs) -> sat cs ->
   length bs = k /\ Forall (fun b => isbit (ew b)) bs /\ ew x == wsum (map ew bs) 0 /\ exists v, 0 <= v < 2 ^ Z.of_nat k /\ ew x == v.
